@@ -210,3 +210,26 @@ Definition send_response (s : st) (j i : nat) : option st :=
               end
   | None => None
   end.
+
+(** a whole call through a processor: the server side obtains a new protocol object, the request
+    travels, the handler adds response headers to the context it was given, and the reply -- the
+    normal one or an error reply such as RESPONSE_TOO_LARGE -- travels back with that context's
+    response headers. (If the request is rejected for want of an op id no handler runs.) *)
+Definition handler_adds (j : nat) (hadd : list hpair) : list op :=
+  map (fun kv => OAdd j MResp (fst kv) (snd kv)) hadd.
+Definition whole_call (s : st) (i : nat) (hadd : list hpair) : option st :=
+  match step s ONewProto with
+  | Some s1 =>
+    let p := Nat.pred (length (protos s1)) in
+    let j := length (ctxs s1) in
+    match send_request s1 i p with
+    | Some s2 =>
+      if Nat.eqb (length (ctxs s2)) j then Some s2
+      else match run s2 (handler_adds j hadd) with
+           | Some s3 => send_response s3 j i
+           | None => None
+           end
+    | None => None
+    end
+  | None => None
+  end.
